@@ -214,7 +214,8 @@ def jobs(tier):
         for n in range(1, L + 1):
             for ops in itertools.product(alphabet, repeat=n):
                 if name != 'one_compartment_pk_model' and n == 3 and \
-                        (hash(ops) % 4):
+                        (sum((i + 1) * alphabet.index(o)
+                             for i, o in enumerate(ops)) % 4):
                     continue
                 o = list(ops)
                 if name != 'one_compartment_pk_model':
